@@ -8,6 +8,7 @@ import IslaVerif.Driver.C19
 import IslaVerif.Driver.C17
 import IslaVerif.Driver.C15
 import IslaVerif.Driver.C05
+import IslaVerif.Driver.C11
 namespace IslaVerif.Driver
 open IslaVerif
 
@@ -22,6 +23,7 @@ def dispatch : Sexp → Sexp
   | .list (.atom "c17" :: rest) => C17.handle rest
   | .list (.atom "c15" :: rest) => C15.handle rest
   | .list (.atom "c05" :: rest) => C05.handle rest
+  | .list (.atom "c11" :: rest) => C11.handle rest
   | _ => .atom "bad-request"
 
 end IslaVerif.Driver
